@@ -43,6 +43,8 @@ package unserializers
 //@   ensures [C05:cdx:counterStrict] result1 == nil ==> *cc >= old(*cc) + 1
 //@   invariant L0: [C05:inv] *cc >= old(*cc) + 1 + _i
 //@   ensures [C05:cdx:rootsClosed] result1 == nil ==> sbom.closedRoots(result0)
+//@   ensures [C05:cdx:fragmentRoot] result1 == nil ==> len(result0.Nodes) >= 1 && result0.Nodes[0] != nil && len(result0.RootElements) == 1 && result0.RootElements[0] == result0.Nodes[0].Id && result0.Nodes[0].Id != "" && (component.BOMRef != "" ==> result0.Nodes[0].Id == component.BOMRef)
+//@   invariant L0: [C05:inv] len(nl.Nodes) >= 1 && nl.Nodes[0] == node && len(nl.RootElements) == 1 && nl.RootElements[0] == node.Id && node.Id != "" && (component.BOMRef != "" ==> node.Id == component.BOMRef)
 //@   invariant L0: [C05:inv] sbom.closedRoots(nl)
 //@   requires component != nil && cc != nil
 //@   assigns cc.*
